@@ -80,6 +80,9 @@ type Spec struct {
 	Salt int
 	// env: Variant/ID/Key describe the key-encryption AEAD (KEK); DEK names the template
 	DEK string
+	// DEKEncoding (harness side only, never part of a case line): Independent frames the envelope around
+	// this re-encoding of the serialised data key (see NonCanonical)
+	DEKEncoding string
 	KEK *Spec
 	// pad (key-encryption AEAD of envelope cases only): Inner encrypts, the output is framed and
 	// zero-filled to exactly PadN bytes; params = <n>~<inner scheme>~<inner route>~<inner params>,
@@ -115,7 +118,67 @@ var DEKs = map[string]DEKInfo{
 // The AES-CTR-HMAC data keys: the smallest legal IV and tag (data-key ciphertexts of 22 + |p| bytes, the
 // shortest any supported data key produces), the two library templates, and an odd combination.
 var DEKNames = []string{"gcm16", "gcm32", "chacha", "xchacha", "siv16", "siv32",
-	"etm:12.10.sha256.16.16", "etm:16.16.sha256.16.32", "etm:16.32.sha256.32.32", "etm:13.11.sha1.32.20", "etm:12.12.sha512.16.64"}
+	"etm:12.10.sha256.16.16", "etm:16.16.sha256.16.32", "etm:16.32.sha256.32.32", "etm:13.11.sha1.32.20", "etm:12.12.sha512.16.64",
+	"etm:14.48.sha384.32.48", "etm:15.28.sha224.16.28"}
+
+// EtmDEKNames: the AES-CTR-HMAC data-key templates among DEKNames.
+func EtmDEKNames() []string {
+	var out []string
+	for _, n := range DEKNames {
+		if strings.HasPrefix(n, "etm:") {
+			out = append(out, n)
+		}
+	}
+	return out
+}
+
+// EnvOver is the envelope key description over the key-encryption key k and the data-key template dek.
+func EnvOver(k *Spec, dek string) *Spec {
+	return &Spec{Scheme: "env", Route: "E", Variant: k.Variant, ID: k.ID, Key: k.Key, DEK: dek, KEK: k,
+		Params: dek + "~" + k.Scheme + "~" + k.Route + "~" + k.Params}
+}
+
+// NonCanonical re-encodes the serialised AES-CTR-HMAC data key ser (as Ser writes it) in another way
+// protobuf unmarshals to the same message: how = ver0 (explicit version 0 in front), unk (an unknown field
+// behind), swap (hmac_key before aes_ctr_key), longvar (the first length as a two-byte varint), split (the
+// aes_ctr_key message in two occurrences, which protobuf merges).
+func NonCanonical(ser []byte, how string) []byte {
+	if ser[0] != 0x12 || len(ser) == 2+int(ser[1]) {
+		// a single-field key proto: tag len key (ChaCha20-Poly1305 has tag 0x12 too: it is one field long)
+		switch how {
+		case "ver0":
+			return append([]byte{0x08, 0x00}, ser...)
+		case "unk":
+			return append(append([]byte{}, ser...), 0x28, 0x01)
+		default: // longvar; swap / split do not apply: a version field given twice, last value 0
+			if how == "longvar" {
+				return append([]byte{ser[0], ser[1] | 0x80, 0x00}, ser[2:]...)
+			}
+			return append([]byte{0x08, 0x05, 0x08, 0x00}, ser...)
+		}
+	}
+	l1 := int(ser[1])
+	ctr, hm := ser[:2+l1], ser[2+l1:]
+	switch how {
+	case "ver0":
+		return append([]byte{0x08, 0x00}, ser...)
+	case "unk":
+		return append(append([]byte{}, ser...), 0x28, 0x01)
+	case "swap":
+		return append(append([]byte{}, hm...), ctr...)
+	case "longvar":
+		return append(append([]byte{0x12, byte(l1) | 0x80, 0x00}, ctr[2:]...), hm...)
+	case "split":
+		// ctr = 12 L1 (12 02 08 iv) (1a la aes...)
+		params, key := ctr[2:6], ctr[6:]
+		out := append([]byte{0x12, byte(len(params))}, params...)
+		out = append(append(out, 0x12, byte(len(key))), key...)
+		return append(out, hm...)
+	}
+	panic("noncanonical " + how)
+}
+
+var NonCanonicalHows = []string{"ver0", "unk", "swap", "longvar", "split"}
 
 // DEKOf resolves a data-key template name.
 func DEKOf(name string) (DEKInfo, bool) {
@@ -718,6 +781,9 @@ func (s *Spec) Independent(iv, pt, ad []byte) (ct []byte, ok bool) {
 		d, _ := DEKOf(s.DEK)
 		dk, kiv, div := iv[:d.KeyLen], iv[d.KeyLen:d.KeyLen+s.KEK.IVLen()], iv[d.KeyLen+s.KEK.IVLen():]
 		dekProto := d.Ser(dk)
+		if s.DEKEncoding != "" {
+			dekProto = NonCanonical(dekProto, s.DEKEncoding)
+		}
 		enc, ok1 := s.KEK.Independent(kiv, dekProto, nil)
 		payload, ok2 := s.DEKSpec(dk).Independent(div, pt, ad)
 		if !ok1 || !ok2 {
